@@ -1,4 +1,4 @@
-#[cfg(test)]
+#[cfg(any(test, feature = "__verif"))]
 use std::cmp::Ordering;
 use std::ops::Range;
 
@@ -58,7 +58,7 @@ impl ArrayRangeSet {
         self.0.len()
     }
 
-    #[cfg(test)]
+    #[cfg(any(test, feature = "__verif"))]
     pub(super) fn contains(&self, x: u64) -> bool {
         self.0
             .binary_search_by(|range| {
@@ -198,7 +198,7 @@ impl ArrayRangeSet {
         }
     }
 
-    #[cfg(test)]
+    #[cfg(any(test, feature = "__verif"))]
     pub(super) fn min(&self) -> Option<u64> {
         self.iter().next().map(|x| x.start)
     }
